@@ -1858,3 +1858,18 @@ _scale("C01", "scale_codec", ["A", "R"], 4, 160, 320, 4)
 # FE, so a following piece starting with FD put a literal FE FD on the wire).
 import copy as _copy
 SPECS["C02"]["families"] += [_copy.deepcopy(f) for f in SPECS["C01"]["families"] if f["name"] in ("codecw", "scale_codec")]
+
+# ---- track sraw: RAW pushes of a detached slice's bytes (family iovec: push_sraw / push_sraw_borrowed; harness/src/fam_iovec/sraw.rs) ----
+_SRAW_NOTE = (" Track sraw: the op words push_sraw / push_sraw_borrowed v<i> s<k> (iov.push / push_borrowed of aslice.slice() with the AnchoredSlice held "
+              "elsewhere: arena-resident bytes in the iovec WITHOUT their anchor - the only way to have two adjacent pieces of one chunk side by side and not "
+              "merged) are a DRIVER-level model op (Driver/Iovec.lean stepSraw: the existing World.push / World.pushBorrowed on the slice (chunk c, off, len) read "
+              "from w.aslices[k]; the slice handle stays live and keeps its chunk in the derived live set), NOT a WOp constructor: histories that contain push_sraw "
+              "are COMPARED with the real crate (correspondence, shadow / containment / live-set oracles), not proved - the List WOp theorems (C03W / C04W / C05 / "
+              "C10 / C20W, in particular C20W.reachable_base 'no detached slice over a pending range') do not quantify over them. A slice pushed raw is pinned "
+              "for the rest of the case (both sides refuse ops that move or mutate it: the borrow checker's rule). Enumerated: arena hand-off histories "
+              "(take_arena, read_n into the free-standing arena, raw push, swap_arena back, in both orders; one or two placeholders) with a probe that must change "
+              "nothing (extend with empty items, push_anchor of a chunk-less anchor, empty pushes, a double swap through a spare arena) inserted at every point. "
+              "Direct oracles added: backfill_or_panic of a pending placeholder of the very iovec with a source of the right size must not panic (C03 "
+              "no_panic_valid, on the real code); bytes consumed past the first unfilled placeholder are a C03 failure as well as a C04 one.")
+for _pid in ("C03", "C04", "C05", "C10", "C20"):
+    SPECS[_pid]["level_note"] += _SRAW_NOTE
